@@ -167,7 +167,9 @@ NewCons(kind, cb) ==
     \* val: raw value returned (Wait..), cand: generations it can still stand for; cbval: raw value the
     \* Access callback was entered with, cbc: generations of the look window it can stand for
     [kind |-> kind, st |-> "open", cb |-> cb, val |-> 0, cand |-> {}, relcb |-> 0, must |-> FALSE, canc |-> FALSE,
-     k |-> 0, incb |-> FALSE, cbval |-> 0, cbc |-> {}, stale |-> FALSE, lastout |-> "", win |-> {}]
+     k |-> 0, incb |-> FALSE, cbval |-> 0, cbc |-> {}, stale |-> FALSE, lastout |-> "", win |-> {},
+     \* cancleave: the caller's context was already cancelled when the last callback invocation returned
+     cancleave |-> FALSE]
 
 -----------------------------------------------------------------------------
 (* Events *)
@@ -216,6 +218,9 @@ PRet(s, id, res, val, err) ==
             \cup If(res \in {"nil", "cberr"} /\ c.k >= 1 /\ c.stale, {"AccessStaleResult"})
             \cup If(res = "err" /\ ~IsErr(s, err), {"AccessBadResult"})
             \cup If(res = "canceled" /\ ~c.canc, {"SpuriousCancel"})
+            \* "a cancelled caller context is returned as such": the cancellation was logged before the
+            \* callback returned, so Access finds its context done when it next looks
+            \cup If(res \in {"nil", "cberr"} /\ c.cancleave, {"AccessCancelLost"})
             \cup If(res \notin {"nil", "cberr", "err", "canceled"}, {"AccessBadResult"})))
     ELSE IF res = "ok"
     THEN \* val: raw value; it can stand for every value-returning generation carrying it (the statement
@@ -316,7 +321,7 @@ PCbLeave(s, id, k, out) ==
                    \* its result must not be returned: an obligation, so EVERY generation the value it was
                    \* entered with can stand for must have been invalidated (and the invalidation processed)
                    !.cons[id].stale = (s.cons[id].cbc # {} /\ s.cons[id].cbc \subseteq s.invd),
-                   !.cons[id].win = Window(s)]
+                   !.cons[id].win = Window(s), !.cons[id].cancleave = s.cons[id].canc]
 
 \* The caller context of consumer call id is cancelled.
 PCancel(s, id) ==
@@ -426,7 +431,7 @@ RelCbOnce == \A c \in DOMAIN ps.cons : ps.cons[c].relcb <= 1
 C08Names == {"RelTwice", "RelWhileHeld", "RelUntold", "RelExposed", "ExposedAfterRel", "Leak"}
 C09Names == {"Overlap", "NotResolved", "StaleKept", "BadDelivery", "Panic", "ApiBlocked"}
 C10Names == {"HeldRel", "RelCbTwice", "RelCbMissing", "AccessWrongVal", "AccessNotCancelled", "AccessIdle",
-             "AccessStaleResult", "AccessBadResult", "SpuriousCancel", "WaitBadValue", "WaitBadResult", "WaitStuck"}
+             "AccessStaleResult", "AccessBadResult", "AccessCancelLost", "SpuriousCancel", "WaitBadValue", "WaitBadResult", "WaitStuck"}
 
 Violated ==
     ps.bad
